@@ -200,7 +200,7 @@ func (c *VCtx) frameCheck(fn *ssa.Function, ct *FuncContract, args []Val, entry,
 			}
 			continue
 		}
-		if k == "G:alloc" || strings.HasPrefix(k, "G:visited") || k == "G:itermap" || k == "G:calltime" || strings.HasPrefix(k, "G:lastret:") {
+		if k == "G:alloc" || strings.HasPrefix(k, "G:visited") || k == "G:itermap" || k == "G:calltime" || strings.HasPrefix(k, "G:lastret:") || strings.HasPrefix(k, "G:lastarg:") || k == "G:recvs" {
 			// engine bookkeeping; always havocked at call sites of contracted functions
 			continue
 		}
